@@ -1,4 +1,5 @@
 import ZV.Model.C26
+import ZV.Generated.C26
 /-! line protocol for C26 (all byte strings hex, `-` = empty, `nil` = Go nil where it matters):
 ```
 c26 phash <md5|sha1|sha256|sha384|sha512> <n> <secret> <seed>            → hex
@@ -21,6 +22,10 @@ c26 prfseq <version> <suite> <n>:<secret>:<label>:<seed>,…                → 
 c26 ekmseq <version> <suite> <ms> <cr> <sr> <label>:<ctx|nil>:<len>,…    → results of the queries on ONE closure joined by ;
 c26 ekm13seq <suite13> <master> <msgs> <label>:<ctx|nil>:<len>,…         → same for the TLS 1.3 exporter closure
 c26 finseq <version> <suite> <ms> <msg>,<msg>…                           → sum,client,server before the first / after every Write (+ once more)
+c26 keyssuite <version> <suite id> <ms> <cr> <sr>                        → 6 hex | panic   (establishKeys: the suite's own lengths, T1 table row)
+c26 hs13 <suite13> <early|nil> <shared> <msgs>                           → ok cHs,sHs,master | panic  (establishHandshakeKeys)
+c26 psk13 <suite13> <resumption secret> <nonce> <truncated hello>        → ok psk,binder | panic  (loadSession / checkForResumption)
+c26 app13 <suite13> <master> <msgsSF> <msgsCF>                           → ok cAp,sAp,res | panic
 c26 sched13 <suite13> <step>,…   (w:<hex> | ds:<secret>:<label> | fin:<basekey> | exp:<master> | ekm:<label>:<ctx|nil>:<len>)
                                                                          → per step w | ok hex | exp | ok hex/err/panic joined by ;
 ```
@@ -42,7 +47,8 @@ def optHex (s : String) : Option (Option Bytes) :=
   if s == "nil" then some none else (ofHex s).map some
 
 /-- TLS ≤ 1.2 suite id → does key derivation use SHA-384 (`flags&suiteSHA384`) -/
-def flag (s : String) : Option Bool := s.toNat?.map (fun id => rfcSHA384Suites.contains id)
+def flag (s : String) : Option Bool :=
+  s.toNat?.map (fun id => (ZV.Generated.C26.suiteRows.find? (fun r => r.1 == id)).elim (rfcSHA384Suites.contains id) (·.2.2.2.2))
 
 /-- TLS 1.3 suite id → (hash, key length) -/
 def suite13 (s : String) : Option (HashAlg × Nat) :=
@@ -107,8 +113,47 @@ def sched13 (H : Hash13) : List String → Bytes → Option (Bytes × Bytes) →
       | _, _ => none
     | _ => none
 
+/-- the suite's row of the T1-extracted `implementedCipherSuites` table -/
+def suiteRow (s : String) : Option (Nat × Nat × Nat × Nat × Bool) :=
+  match s.toNat? with
+  | none => none
+  | some id => ZV.Generated.C26.suiteRows.find? (fun r => r.1 == id)
+
 def handle (args : List String) : String :=
   match args with
+  | ["keyssuite", v, sid, ms, cr, sr] =>
+    match v.toNat?, suiteRow sid, ofHex ms, ofHex cr, ofHex sr with
+    | some v, some row, some ms, some cr, some sr =>
+      match establishKeys realPrims v row ms cr sr with
+      | .ok k => ",".intercalate [toHex k.clientMAC, toHex k.serverMAC, toHex k.clientKey, toHex k.serverKey,
+                                  toHex k.clientIV, toHex k.serverIV]
+      | .err => "err"
+      | .panic => "panic"
+    | _, _, _, _, _ => "bad-op"
+  | ["hs13", h, early, shared, msgs] =>
+    match (suite13 h).map (·.1), optHex early, ofHex shared, ofHex msgs with
+    | some a, some early, some shared, some msgs =>
+      let H := hash13OfAlg a
+      let e := match early with
+        | none => earlySecret H none       -- !usingPSK: extract(nil, nil)
+        | some e => e                      -- usingPSK: hs.earlySecret
+      showRes (fun (k : HsKeys) => toHex k.clientSecret ++ "," ++ toHex k.serverSecret ++ "," ++ toHex k.masterSecret)
+        (establishHandshakeKeys H e shared msgs)
+    | _, _, _, _ => "bad-op"
+  | ["psk13", h, res, nonce, hello] =>
+    match (suite13 h).map (·.1), ofHex res, ofHex nonce, ofHex hello with
+    | some a, some res, some nonce, some hello =>
+      let H := hash13OfAlg a
+      showRes (fun (p : Bytes × Bytes) => toHex p.1 ++ "," ++ toHex p.2)
+        ((ticketPSK H res nonce).bind fun psk => (pskBinder H psk hello).map fun b => (psk, b))
+    | _, _, _, _ => "bad-op"
+  | ["app13", h, master, msgsSF, msgsCF] =>
+    match (suite13 h).map (·.1), ofHex master, ofHex msgsSF, ofHex msgsCF with
+    | some a, some master, some m1, some m2 =>
+      let H := hash13OfAlg a
+      showRes (fun (p : AppKeys × Bytes) => toHex p.1.clientSecret ++ "," ++ toHex p.1.serverSecret ++ "," ++ toHex p.2)
+        ((applicationSecrets H master m1).bind fun k => (resumptionSecret H master m2).map fun r => (k, r))
+    | _, _, _, _ => "bad-op"
   | ["prfseq", v, f, calls] =>
     let parse (c : String) : Option (Nat × Bytes × Bytes × Bytes) :=
       match c.splitOn ":" with
